@@ -98,7 +98,7 @@ def run_layer(items, opts, mode):
         nodes.append(n)
     o = {k: conv(v, exact) for k, v in opts.items()}
     try:
-        ro_mod.removeOverlap(nodes, o)
+        ro_mod.removeOverlap(nodes, o if o else None)        # no options at all: None, as the signature allows
         rec = _state["layers"][0]
     finally:
         _state["layers"] = None
@@ -164,7 +164,7 @@ def run_force(labels, opts, mode, engine=None, nodes=None, want_layer_lines=True
         if nodes is None:
             nodes = [mk_node(conv(p, exact), conv(w, exact), data={"i": i}, k=i) for i, (p, w) in enumerate(labels)]
         if engine is None:
-            engine = force_mod.Force(o)
+            engine = force_mod.Force(o) if o else force_mod.Force()        # no options at all: the no-argument constructor
             engine.nodes(nodes)
         engine.compute()
         recs = _state["layers"]
@@ -235,7 +235,7 @@ def run_history(ops, mode, want_layer_lines=False):
         elif op[0] == "new":
             acc = dict(op[1])
             src = eff_force_opts(acc) if exact else acc
-            engine = force_mod.Force({k: (conv(v, exact) if k != "algorithm" else v) for k, v in src.items()})
+            engine = force_mod.Force({k: (conv(v, exact) if k != "algorithm" else v) for k, v in src.items()}) if src else force_mod.Force(None)
             if nodes is not None and op[-1] == "keep-nodes":      # stale nodes into a fresh engine
                 engine.nodes(nodes)
         elif op[0] == "nodes":
